@@ -38,3 +38,9 @@ PROPS["C01"] = dict(pkg="c01", shards=16, level="exploration",
     level_text="Exploration: generated schemas of every kind (struct-mapped and map-based objects, one-of, references, scopes, units, defaults) with inputs rendered in arbitrary decoder representations; each accepted input is taken through Validate, Serialize, Unserialize again directly and over a real CBOR encode/decode, and through the typed entry points.",
     level_note="Struct-mapped objects follow the documented precondition (properties that cannot express absence are required, treat-empty-as-default, or zero-valid and rule-free); equality is NaN-reflexive, regexp-by-source, nil==empty slice, and empty==absent only where a property is marked treat-empty-as-default; panics are left to C04.",
     assumptions=["CBOR transport = fxamacker/cbor default Marshal and Unmarshal into any, as atp/client.go and atp/server.go use it"])
+
+PROPS["C03"] = dict(pkg="c03", shards=16, level="exploration",
+    technique="property-based testing (rapid) + exhaustive enumeration of small objects; oracle = independent reference interpreter of object/one-of semantics, checked in both directions on Unserialize (raw) and Validate/Serialize (native)",
+    level_text="Exploration: all flag combinations x supplied subsets x three struct mappings for objects with 1-2 properties (exhaustive) and a reduced grid for 3; generated nested objects / one-of schemas with valid inputs and structural raw mutations; every case judged accept/reject and by value against the reference interpreter.",
+    level_note="Trusts harness/model for presence rules, defaulting (incl. the documented sub-object default propagation for absent by-value members), disabled-in-use on the Unserialize path only, shorthand and discriminator dispatch; struct-mapped objects obey the documented precondition for fields that cannot express absence; own defaults on by-value members whose sub-object also declares defaults are not generated (the statement does not say how the two merge).",
+    assumptions=["native presence = map key present / pointer field non-nil / value field always present unless treat-empty-as-default and zero"])
